@@ -45,6 +45,16 @@ def run_case(case, rng):
         G.restrict_to_closure(sp, rng, drop_outside_zero=(fam != "ghostzero"))
     if fam == "ghostzero":
         ghost = _add_ghost_zero(sp, rng, explicit)
+    if fam in ("any", "proper") and explicit and len(sp.states) >= 2 and rng.random() < 0.4:
+        # a DEAD END: an unflagged state that offers no action at all (it is not absorbing by definition)
+        init_states = {s_ for s_, p_ in sp.init if p_ > 0}
+        cand = [s_ for s_ in sp.states if s_ not in sp.flag and s_ not in init_states]
+        if cand:
+            de = rng.choice(cand)
+            for a_ in sp.acts[de]:
+                sp.P.pop((de, a_), None)
+            sp.acts[de] = ()
+            sp.meta["dead_end"] = repr(de)
     case.family = fam
     case.params = dict(rep=rep, gamma=sp.gamma, n=len(sp.states), label_kind=sp.meta.get("label_kind"),
                        ghost=repr(ghost) if ghost is not None else None)
